@@ -10,7 +10,7 @@ TECHNIQUE = (
     "static analysis: constant folding of the two pure decoder functions over the finite table of the README's documented operand codes; literal snapping constants and window symmetry; key agreement of the TP/LT merge; index-bound (interval) check of block indexing with guard recognition; emission path (every entry inserted, dump covers the list inserted into); aliasing-depth ownership analysis of the import functions (memoised returns are shared storage)"
 )
 EXPLANATION = (
-    "R1: both _create_db_operand_* decoders are constant-folded (osaca_sa/consteval.py, an interpreter over the AST for the pure subset they use; nothing of the repository is executed) over the finite table of documented operand codes - every memory-flag subset in both orders included - and a few undocumented letters; the operand each code yields must equal the README's 'Benchmark import' bullet lists (x86: r, x/y/z, i, m[b o i s]; AArch64: w x b h s d q, v[bhsd] default d, i, m[b o i s r p]). R2: throughput candidates are 1/n for n in range(1, 11); the acceptance window is the symmetric pair 0.95/1.05 in both modes; an accepted latency is rounded to the nearest integer, an accepted throughput is the matching reciprocal; out of window returns None. R3: TP and LT lines of one ibench form map to the same key and update the same entry object. R4: every index i + k into the asmbench lines stays below the bound the loop guarantees or is guarded; the malformed-block path breaks (earlier entries kept). R5: every parsed entry is passed to set_instruction_entry and the dump covers the list entries were appended to. R6: in the functions of db_interface reachable from import_benchmark_output no object with aliasing depth 0 to a memoised return value, module global, class attribute or default argument is mutated in place (E4/E5 ownership analysis): a decoder result shared between forms cannot be edited per form. R7: what set_instruction updates when the imported form already exists is an object the dump emits (every object filed in the look-up index is the object in the dumped list), and the comparison that DB-format operands end in is not constant."
+    "R1: both _create_db_operand_* decoders are constant-folded (osaca_sa/consteval.py, an interpreter over the AST for the pure subset they use; nothing of the repository is executed) over the finite table of documented operand codes - every memory-flag subset in both orders included - and a few undocumented letters; the operand each code yields must equal the README's 'Benchmark import' bullet lists (x86: r, x/y/z, i, m[b o i s]; AArch64: w x b h s d q, v[bhsd] default d, i, m[b o i s r p]). R2: throughput candidates are 1/n for n in range(1, 11); the acceptance window is the symmetric pair 0.95/1.05 in both modes; an accepted latency is rounded to the nearest integer, an accepted throughput is the matching reciprocal; out of window returns None. R3: TP and LT lines of one ibench form map to the same key and update the same entry object. R4: every index i + k into the asmbench lines stays below the bound the loop guarantees or is guarded; the malformed-block path breaks (earlier entries kept). R5: every parsed entry is passed to set_instruction_entry and the dump covers the list entries were appended to. R6: in the functions of db_interface reachable from import_benchmark_output no object with aliasing depth 0 to a memoised return value, module global, class attribute or default argument is mutated in place (E4/E5 ownership analysis): a decoder result shared between forms cannot be edited per form. R7: what set_instruction updates when the imported form already exists is an object the dump emits (every object filed in the look-up index is the object in the dumped list), and the comparison that DB-format operands end in is not constant. R7(c): while that comparison is constant, set_instruction must not file a new form under the folded key get_instruction looks up - otherwise the second imported form of a mnemonic new to the model (same operand count) is written over the first."
 )
 NOT_DECIDED = "Numeric behaviour exactly at the window boundaries and the YAML round trip of the emitted model."
 ASSUMPTIONS = ["README.rst section 'Benchmark import' is the documented naming convention"]
@@ -581,6 +581,34 @@ def _r7(ctx):
                 % (U(first), ", ".join(f.name for f in callers)), cmp_.qname, "constant comparison " + U(first))
     else:
         ctx.ok("R7", "DB-format operands are compared field by field", cmp_.where())
+    # (c) while that comparison is constant, a form filed by set_instruction must not become visible to the look-ups of the
+    # following imported forms under the folded key get_instruction uses - else two NEW forms of one mnemonic with equal
+    # operand count collapse into one entry (the second is written over the first)
+    if const and callers:
+        lk = [c for c in ast.walk(gi.node) if isinstance(c, ast.Call) and isinstance(c.func, ast.Attribute) and c.func.attr == "get"
+              and "instruction_forms_dict" in U(c.func.value) and c.args]
+        lk += [x for x in ast.walk(gi.node) if isinstance(x, ast.Subscript) and "instruction_forms_dict" in U(x.value)
+               and not isinstance(x.slice, ast.Constant)]
+        fold = None
+        for x in lk:
+            k = C.flow_of(gi).subst(x.args[0] if isinstance(x, ast.Call) else x.slice)
+            if isinstance(k, ast.Call) and isinstance(k.func, ast.Attribute) and k.func.attr in ("upper", "lower", "casefold"):
+                fold = k.func.attr
+        apps = [c for c in ast.walk(si.node) if isinstance(c, ast.Call) and isinstance(c.func, ast.Attribute) and c.func.attr == "append"
+                and isinstance(c.func.value, ast.Subscript) and "instruction_forms_dict" in U(c.func.value.value)]
+        for c in apps:
+            k = C.flow_of(si).subst(c.func.value.slice)
+            kfold = k.func.attr if isinstance(k, ast.Call) and isinstance(k.func, ast.Attribute) and k.func.attr in (
+                "upper", "lower", "casefold") else None
+            if fold is not None and kfold == fold:
+                ctx.bad("R7", "new forms stay apart while the DB-format comparison is constant", si.where(c),
+                        "set_instruction files a new form under `%s`, the folded key get_instruction looks up, and the comparison the "
+                        "importer's operands end in (_compare_db_entries) is constant True: the second imported form of a mnemonic that "
+                        "is new to the model, with the same number of operands (`vfoobarpd-x_x_x` then `vfoobarpd-y_y_mbois`), 'matches' "
+                        "the first one and is written over it - the first imported form is missing from the emitted model" % U(k),
+                        si.qname, "index key of imported forms " + U(k))
+            else:
+                ctx.ok("R7", "new forms are filed under `%s` (look-up folds with %s)" % (U(k), fold), si.where(c))
 
 
 def run(ctx):
